@@ -46,7 +46,7 @@ pub struct Case {
 }
 
 fn cli() -> PathBuf {
-    PathBuf::from("/verif/harness/target/cli/release/rsass")
+    PathBuf::from(format!("{}/harness/target/cli/release/rsass", crate::engine::verif_root()))
 }
 
 fn scratch() -> PathBuf {
